@@ -230,8 +230,14 @@ class TCPRegistryServer(RegistryServer):
 
     def _recv(self):
         sock2, _ = self.sock.accept()
-        addrinfo = sock2.getpeername()
-        data = sock2.recv(MAX_DGRAM_SIZE)
+        try:
+            # a client that connects and stays silent must not stall the registry for everybody else
+            sock2.settimeout(self.TIMEOUT)
+            addrinfo = sock2.getpeername()
+            data = sock2.recv(MAX_DGRAM_SIZE)
+        except Exception:
+            sock2.close()
+            raise
         self._connected_sockets[addrinfo] = sock2
         return data, addrinfo
 
